@@ -1,0 +1,61 @@
+//go:build verif
+
+package fzf
+
+import "github.com/junegunn/fzf/src/util"
+
+// Verification hooks (build tag verif): thin exported wrappers around
+// replacePlaceholder and escapeSingleQuote. No logic.
+
+// VerifItem is an item as replacePlaceholder sees it: its ordinal and its text.
+type VerifItem struct {
+	Index int32
+	Text  string
+}
+
+func verifItem(it *VerifItem) *Item {
+	if it == nil {
+		return nil
+	}
+	item := &Item{text: util.ToChars([]byte(it.Text))}
+	item.text.Index = it.Index
+	return item
+}
+
+// VerifReplacePlaceholder calls replacePlaceholder. allItems is [cur, sel...] with a nil
+// in place of a missing current item / an empty selection, as the callers in terminal.go build it.
+// delim == nil means the AWK-style tokenizer, otherwise a plain-string delimiter.
+// withShell selects the executor (and so the quoting dialect) exactly like --with-shell.
+// Returns the command, the temp files written, and the name of the last action used for {fzf:action}.
+func VerifReplacePlaceholder(template string, delim *string, printsep string, forcePlus bool, query string,
+	cur *VerifItem, sel []VerifItem, prompt string, withShell string) (string, []string, string) {
+	all := []*Item{verifItem(cur)}
+	for i := range sel {
+		all = append(all, verifItem(&sel[i]))
+	}
+	if len(sel) == 0 {
+		all = append(all, nil)
+	}
+	action := actBackwardDeleteCharEof
+	out, temps := replacePlaceholder(replacePlaceholderParams{
+		template:   template,
+		stripAnsi:  false,
+		delimiter:  Delimiter{str: delim},
+		printsep:   printsep,
+		forcePlus:  forcePlus,
+		query:      query,
+		allItems:   all,
+		lastAction: action,
+		prompt:     prompt,
+		executor:   util.NewExecutor(withShell),
+	})
+	return out, temps, action.Name()
+}
+
+// VerifEscapeSingleQuote is escapeSingleQuote (proxy.go), used by runTmux and runProxy.
+func VerifEscapeSingleQuote(s string) string { return escapeSingleQuote(s) }
+
+// VerifQuoteEntry is Executor.QuoteEntry for the executor selected by withShell.
+func VerifQuoteEntry(withShell string, s string) string {
+	return util.NewExecutor(withShell).QuoteEntry(s)
+}
